@@ -142,6 +142,7 @@ _regm("fresh alias:recv", "reshape ravel squeeze transpose view swapaxes")
 # scipy.sparse format conversions: the same matrix when it already has that format
 _regm("fresh alias:recv", "tocsr tocsc tocoo tolil todok tobsr asformat")
 _regm("fresh", "toarray todense")
+_regm("fresh mut:recv", "eliminate_zeros sum_duplicates sort_indices prune setdiag")
 _regm("elems:recv", "items keys values")
 _regm("elem:recv", "get")
 # matplotlib Axes / Figure / Axis methods: read their arguments
